@@ -155,7 +155,9 @@ def build(states, slots, block_size=MB, sector=512, size=None, layer=1, seqs=(7,
         items.append((PARENT_LOCATOR, locator_item(parent), 4))
     mt = struct.pack("<8s2sH20s", b"metadata", b"", len(items), b"")
     body = b""
+    item_offsets = []
     for guid, data, flags in items:
+        item_offsets.append(meta_mb * MB + KB64 + len(body))
         mt += struct.pack("<16sIII", guid, KB64 + len(body), len(data), flags) + b"\0" * 4
         body += data + b"\0" * ((-len(data)) % 8)
     img.put(meta_mb * MB, mt)
@@ -258,6 +260,9 @@ def build(states, slots, block_size=MB, sector=512, size=None, layer=1, seqs=(7,
         img.field(f"meta.entry{i}.id", meta_mb * MB + 32 + 32 * i, 16, "<", "header")
         img.field(f"meta.entry{i}.offset", meta_mb * MB + 48 + 32 * i, 4, "<", "header")
         img.field(f"meta.entry{i}.length", meta_mb * MB + 52 + 32 * i, 4, "<", "header")
+    if has_parent:
+        img.field("parent_locator.type", item_offsets[-1], 16, "<", "header")
+        img.field("parent_locator.key_value_count", item_offsets[-1] + 18, 2, "<", "header")
     o = meta_mb * MB + KB64
     img.field("file_parameters.block_size", o, 4, "<", "header")
     img.field("file_parameters.flags", o + 4, 4, "<", "header")
